@@ -54,8 +54,8 @@ def parse_obs(o):
 
 LNAMES = {0: 'Start', 1: 'Step', 3: 'Cancel', 4: 'Mark', 5: 'Fire'}
 OPS = {0: 'Get', 1: 'Add', 2: 'Drop', 3: 'Take', 4: 'Close', 5: 'Status'}
-GMODES = {0: 'get', 1: 'try_get', 2: 'timeout_get(None)', 3: 'timeout_get(0)', 4: 'timeout_get(50ms)'}
-RMODES = {0: 'remove', 1: 'try_remove', 2: 'timeout_remove(None)', 3: 'timeout_remove(0)', 4: 'timeout_remove(50ms)'}
+GMODES = {0: 'get', 1: 'try_get', 2: 'timeout_get(None)', 3: 'timeout_get(0)', 4: 'timeout_get(700us)'}
+RMODES = {0: 'remove', 1: 'try_remove', 2: 'timeout_remove(None)', 3: 'timeout_remove(0)', 4: 'timeout_remove(700us)'}
 EVN = {5: 'Destroy', 6: 'HandOut', 7: 'CloseReturned', 8: 'HandBack', 9: 'Removed', 10: 'Status', 12: 'ANOMALY'}
 PCN = {0: '-', 1: 'start', 2: 'get.acquire', 3: 'get.parked', 4: 'get.woken', 5: 'get.pop', 6: 'get.popped', 7: 'get.undo',
        13: 'add.parked', 14: 'add.woken', 15: 'add.push', 16: 'add.avail_inc', 17: 'add.add_permits',
@@ -505,6 +505,12 @@ def analyze(traces, mobs_all):
             harness_errs.append((ti, t['err']))
         if t.get('want_labels') is not None and len(t['labels']) != len(t['want_labels']):
             harness_errs.append((ti, 'corpus trace %s stops after %d of %d labels' % (t.get('name'), len(t['labels']), len(t['want_labels']))))
+        if t.get('want_labels') is not None and t['obs']:
+            last = parse_obs(t['obs'][-1])['tasks']
+            stuck = [j for j, c in enumerate(last) if c < 100 and c not in PARKED]
+            if stuck:
+                harness_errs.append((ti, 'corpus trace %s is stale: task(s) %s are left in the middle of an operation'
+                                     % (t.get('name'), stuck)))
         P = [parse_obs(o) for o in t['obs']]
         M = [parse_obs(o) if o is not None else None for o in mo]
         h = corr.trace_hash(t)
